@@ -37,7 +37,8 @@ def normalise(events):
 
 
 NOISE = {"PollCheck", "Healthy", "SWHeader", "SWWrite", "SWClose", "SerStart", "SerDone", "Attempt", "AttemptStatus",
-         "AttemptErr", "BrsRead", "BrsSeek", "Backoff", "ListFail", "HealthProbe", "WServed", "WClosed", "WForward", "ListFault"}
+         "AttemptErr", "BrsRead", "BrsSeek", "Backoff", "ListFail", "HealthProbe", "WServed", "WClosed", "WForward", "ListFault",
+         "ShimSession", "WsStore", "WsDelete"}
 
 
 def project(events, drop):
